@@ -27,7 +27,14 @@ func battery(v *ds.VMValue) string {
 	try("ToRepr", func() { _ = v.ToRepr() })
 	try("AsBool", func() { _ = v.AsBool() })
 	try("ValueEqual", func() { _ = ds.ValueEqual(v, v.Clone(), true) })
-	try("ToJSON", func() { _, _ = v.ToJSON() })
+	// what ToJSON hands out without an error is a JSON document (also when the value sits inside a container)
+	jsonOK := func(x *ds.VMValue) {
+		if b, err := x.ToJSON(); err == nil && !json.Valid(b) {
+			panic("ToJSON reported success with a text that is not JSON: " + string(b))
+		}
+	}
+	try("ToJSON", func() { jsonOK(v) })
+	try("ToJSON-in-array", func() { jsonOK(ds.NewArrayVal(ds.NewIntVal(1), v, ds.NewIntVal(2))) })
 	try("GetTypeName", func() { _ = v.GetTypeName() })
 	scripts := []string{"x", "x + 1", "1 + x", "x == x", "x[0]", "x['a']", "x.a", "x.a = 1", "x[0] = 1", "x()", "x(1)", "x.len()",
 		"x.keys()", "x.sum()", "-x", "x ? 1 : 2", "x ?? 3", "`{x}`", "x[0:1]", "toStr(x)", "repr(x)", "toBool(x)", "typeId(x)", "dir(x)",
